@@ -31,6 +31,50 @@ def vocabulary(spec):
     return {"types": types, "fields": sorted(set(fields)) or ["x"], "args": sorted(set(args)) or ["a0"]}
 
 
+def _named(t):
+    return t.replace("[", "").replace("]", "").replace("!", "")
+
+
+def selection_parents(doc, spec, A):
+    """id(SelectionSet) -> name of the type it selects on (None when unknown), from the spec alone"""
+    types = spec["types"]
+    out = {}
+
+    def fields_of(tn):
+        return {f["name"]: f for f in (types.get(tn, {}).get("fields") or [])}
+
+    def visit(ss, tn):
+        if ss is None:
+            return
+        out[id(ss)] = tn
+        for s in ss.selections:
+            if isinstance(s, A.Field):
+                fd = fields_of(tn).get(s.name.value) if tn else None
+                visit(s.selection_set, _named(fd["type"]) if fd else None)
+            elif isinstance(s, A.InlineFragment):
+                visit(s.selection_set, s.type_condition.name.value if s.type_condition is not None else tn)
+
+    for d in doc.definitions:
+        if isinstance(d, A.OperationDefinition):
+            visit(d.selection_set, spec.get(d.operation))
+        elif isinstance(d, A.FragmentDefinition):
+            visit(d.selection_set, d.type_condition.name.value)
+    return out
+
+
+def _possible(spec, tn):
+    t = spec["types"].get(tn)
+    if t is None:
+        return []
+    if t["kind"] == "object":
+        return [tn]
+    if t["kind"] == "union":
+        return list(t["members"])
+    if t["kind"] == "interface":
+        return [n for n, o in spec["types"].items() if o["kind"] == "object" and tn in o.get("interfaces", [])]
+    return []
+
+
 VALUE_TEXTS = ["1", "-3", "1.5", "\"s\"", "true", "null", "ENUMISH", "[1]", "[]", "[[1]]", "{}", "{k: 1}", "{f0: [1]}", "[null]",
                "\"\"\"block\"\"\""]
 
@@ -44,7 +88,7 @@ def mutate(draw, doc, spec, A, parse_value):
         xs = [n for n, _ in nodes if isinstance(n, cls)]
         return draw(st.sampled_from(xs)) if xs else None
 
-    k = draw(st.integers(0, 19))
+    k = draw(st.integers(0, 24))
     if k == 0:  # collide aliases / response keys
         ss = pick(A.SelectionSet)
         fs = [s for s in ss.selections if isinstance(s, A.Field)] if ss else []
@@ -230,6 +274,134 @@ def mutate(draw, doc, spec, A, parse_value):
             d.arguments = []
             return "directive-drop-arguments"
         return None
+    if k >= 23:  # a web of spreads between fragments of one type condition (shared sub-fragments, cycles closed late)
+        frs = [d for d in doc.definitions if isinstance(d, A.FragmentDefinition)]
+        if not frs:
+            return None
+        src = draw(st.sampled_from(frs))
+        group = [src]
+        for i in range(draw(st.integers(2, 4))):
+            c = src.deepcopy()
+            c.name = A.Name(value="W%d" % i)
+            doc.definitions.insert(draw(st.integers(0, len(doc.definitions))), c)
+            group.append(c)
+        # the copies are used wherever the source fragment is
+        for n, _ in nodes:
+            if isinstance(n, A.SelectionSet):
+                for i, x in reversed(list(enumerate(n.selections))):
+                    if isinstance(x, A.FragmentSpread) and x.name.value == src.name.value:
+                        for c in group[1:]:
+                            n.selections.insert(i + 1, A.FragmentSpread(name=A.Name(value=c.name.value), directives=[]))
+        def edge(a, b, at_end):
+            sels = a.selection_set.selections
+            sels.insert(len(sels) if at_end else draw(st.integers(0, len(sels))),
+                        A.FragmentSpread(name=A.Name(value=b.name.value), directives=[]))
+
+        if draw(st.booleans()):
+            # a fragment reached twice before the spread that closes the cycle
+            g = draw(st.permutations(group))
+            edge(g[0], g[1], True)
+            edge(g[0], g[2], True)
+            edge(g[2], g[1], True)
+            edge(g[2], g[0], True)
+            if len(g) > 3:
+                edge(g[1], g[3], True)
+            n_extra = draw(st.integers(0, 2))
+        else:
+            n_extra = draw(st.integers(3, 9))
+        for _ in range(n_extra):
+            a, b = draw(st.sampled_from(group)), draw(st.sampled_from(group))
+            if a is b and draw(st.integers(0, 3)):
+                continue
+            edge(a, b, False)
+        return "spread-web"
+    if k >= 20:  # three selections under one response key: copies of one field, each perturbed / type-conditioned
+        parents = selection_parents(doc, spec, A)
+        sss = [n for n, _ in nodes if isinstance(n, A.SelectionSet) and any(isinstance(x, A.Field) for x in n.selections)]
+        if not sss:
+            return None
+        rich = [n for n in sss if len(_possible(spec, parents.get(id(n))) ) >= 2
+                or any(isinstance(x, A.Field) and x.selection_set is not None for x in n.selections)]
+        ss = draw(st.sampled_from(rich if rich and draw(st.integers(0, 4)) else sss))
+        fs = [x for x in ss.selections if isinstance(x, A.Field)]
+        comp = [x for x in fs if x.selection_set is not None]
+        f = draw(st.sampled_from(comp if comp and draw(st.booleans()) else fs))
+        key = f.alias.value if f.alias else f.name.value
+        conds = _possible(spec, parents.get(id(ss)))
+        if len(conds) < 2:
+            conds = []
+        ptn = parents.get(id(ss))
+
+        def plain_fields(tn):
+            """field definitions of tn selectable without arguments"""
+            t = spec["types"].get(tn) or {}
+            return [fd for fd in (t.get("fields") or [])
+                    if all(not a["type"].endswith("!") or a.get("default") is not None or "default" in a for a in fd.get("args") or [])]
+
+        def field_ast(fd, alias):
+            leaf = spec["types"].get(_named(fd["type"]), {}).get("kind") not in ("object", "interface", "union")
+            return A.Field(name=A.Name(value=fd["name"]), alias=A.Name(value=alias), arguments=[], directives=[],
+                           selection_set=None if leaf else A.SelectionSet(selections=[
+                               A.Field(name=A.Name(value="__typename"), alias=None, arguments=[], directives=[], selection_set=None)]))
+
+        def wrap(g, cond):
+            if cond is None:
+                return g
+            return A.InlineFragment(type_condition=A.NamedType(name=A.Name(value=cond)), directives=[],
+                                    selection_set=A.SelectionSet(selections=[g]))
+
+        variant = draw(st.integers(0, 2))
+        fdef = next((x for x in (spec["types"].get(ptn, {}).get("fields") or []) if x["name"] == f.name.value), None) if ptn else None
+        sels = []
+        if variant == 1 and f.selection_set is not None and fdef is not None and len(plain_fields(_named(fdef["type"]))) >= 2:
+            # same field three times; the sub-selections of two copies use one alias for (usually) different fields
+            kids = draw(st.permutations(plain_fields(_named(fdef["type"]))))[:2]
+            for kid in [None] + kids:
+                g = f.deepcopy()
+                g.alias = A.Name(value=key)
+                if kid is not None:
+                    g.selection_set.selections = [field_ast(kid, "k")]
+                sels.append(g)
+            if draw(st.integers(0, 3)) == 0:
+                sels = draw(st.permutations(sels))
+        elif variant == 2 and len(conds) >= 2:
+            # one response key under type conditions X, Y, Y: fields of different object types never conflict
+            x, y = draw(st.permutations(conds))[:2]
+            fx = plain_fields(x)
+            first = field_ast(draw(st.sampled_from(fx)), key) if fx and draw(st.booleans()) else f.deepcopy()
+            first.alias = A.Name(value=key)
+            ftype = next((fd["type"] for fd in spec["types"][x].get("fields") or [] if fd["name"] == first.name.value), None)
+            fy = plain_fields(y)
+            same = [fd for fd in fy if fd["type"] == ftype]
+            pool = same if len(same) >= 2 and draw(st.integers(0, 5)) else fy
+            sels = [wrap(first, x)]
+            if len(pool) >= 2:
+                for fd in draw(st.permutations(pool))[:2]:
+                    sels.append(wrap(field_ast(fd, key), y))
+            else:
+                sels += [wrap(f.deepcopy(), y), wrap(f.deepcopy(), y)]
+                for w in sels[1:]:
+                    w.selection_set.selections[0].alias = A.Name(value=key)
+            if draw(st.integers(0, 3)) == 0:
+                sels = draw(st.permutations(sels))
+        else:
+            for _ in range(3):
+                g = f.deepcopy()
+                g.alias = A.Name(value=key)
+                mode = draw(st.integers(0, 3))
+                if mode == 1 and len(fs) > 1:
+                    o = draw(st.sampled_from(fs)).deepcopy()
+                    g.name, g.arguments, g.selection_set = o.name, o.arguments, o.selection_set
+                elif mode >= 2 and g.selection_set is not None:
+                    kids = [x for x in g.selection_set.selections if isinstance(x, A.Field)]
+                    if kids:
+                        x = draw(st.sampled_from(kids)).deepcopy()
+                        x.alias = A.Name(value="k")
+                        g.selection_set.selections = [x]
+                sels.append(wrap(g, draw(st.sampled_from([None] + conds[:4] * 2)) if conds else None))
+        i = ss.selections.index(f)
+        ss.selections[i:i + 1] = sels
+        return "same-key-triple"
     # k == 19: swap contents of two selection sets
     a, b = pick(A.SelectionSet), pick(A.SelectionSet)
     if a is not None and b is not None and a is not b:
